@@ -1051,7 +1051,9 @@ class Variable(CanBehaveLikeAVariable[T]):
                     {**sources, self._id_: HashedValue(v)}, False, self
                 )
         elif self._should_be_instantiated_:
-            yield from self._instantiate_using_child_vars_and_yield_results_(sources)
+            yield from self._instantiate_using_child_vars_and_yield_results_(
+                sources, parent
+            )
         else:
             raise ValueError("Cannot evaluate variable.")
 
@@ -1060,9 +1062,13 @@ class Variable(CanBehaveLikeAVariable[T]):
         return self._is_inferred_ or self._predicate_type_
 
     def _instantiate_using_child_vars_and_yield_results_(
-        self, sources: Dict[int, HashedValue]
+        self,
+        sources: Dict[int, HashedValue],
+        parent: Optional[SymbolicExpression] = None,
     ) -> Iterable[OperationResult]:
         for kwargs in self._generate_combinations_for_child_vars_values_(sources):
+            # this evaluation may have been suspended while another occurrence of this expression was evaluated.
+            self._eval_parent_ = parent
             # Build once: unwrapped hashed kwargs for already provided child vars
             bound_kwargs = {k: v[self._child_vars_[k]._id_] for k, v in kwargs.items()}
             instance = self._type_(**{k: hv.value for k, hv in bound_kwargs.items()})
@@ -1222,13 +1228,15 @@ class DomainMapping(CanBehaveLikeAVariable[T], ABC):
             )
             return
 
-        yield from (
-            self._build_operation_result_and_update_truth_value_(
-                child_result, mapped_value
-            )
-            for child_result in self._child_._evaluate__(sources, parent=self)
-            for mapped_value in self._apply_mapping_(child_result[self._child_._id_])
-        )
+        for child_result in self._child_._evaluate__(sources, parent=self):
+            for mapped_value in self._apply_mapping_(child_result[self._child_._id_]):
+                # An expression that occurs several times in a query (f = x.flag; or_(f == 0, f)) can be evaluated
+                # for another occurrence while this evaluation is suspended, the parent has to be the one of this
+                # evaluation when the truth value is derived.
+                self._eval_parent_ = parent
+                yield self._build_operation_result_and_update_truth_value_(
+                    child_result, mapped_value
+                )
 
     def _build_operation_result_and_update_truth_value_(
         self, child_result: OperationResult, current_value: Any
